@@ -310,28 +310,35 @@ pub fn run(run: Run) -> ! {
     );
     acc.mirror_checks = macc.mirror_checks;
     acc.sink.merge(macc.sink);
-    // Custom easing used as given: directly and through a timeline
+    // Custom easing used as given: directly (incl. the endpoints and inputs outside [0,1]) and
+    // through a timeline (incl. t = 0, where the position is exactly 0). Customs 3..5 are not
+    // anchored at (0,0)/(1,1).
     let mut custom_checks = 0u64;
-    for id in [1u8, 2u8] {
-        let e = real_easing(id);
+    for id in [1u8, 2, 3, 4, 5] {
+        let e = Easing::Custom(Box::new(PolyEasing(id)));
         let f = PolyEasing(id);
-        let spec = TlSpec {
-            kfs: vec![Kf { pos: 0.0, a: Some(0.0), k: None, d: None, easing: Some(id) }, Kf { pos: 1.0, a: Some(1.0), k: None, d: None, easing: None }],
-            default_easing: 0,
-            timing: Timing::new(1.0, 0.0, Rep::None, false),
-        };
-        let tl = spec.build();
-        for j in 0..=(1u32 << 16) {
-            let x = j as f32 / 65536.0;
+        let tl = P::timeline()
+            .duration_seconds(1.0)
+            .keyframe(P::keyframe(0.0).a(0.0).easing(Easing::Custom(Box::new(PolyEasing(id)))))
+            .keyframe(P::keyframe(1.0).a(1.0))
+            .build();
+        let mut xs: Vec<f32> = (0..=(1u32 << 16)).map(|j| j as f32 / 65536.0).collect();
+        xs.extend([-0.5, -f32::MIN_POSITIVE, f32::MIN_POSITIVE, f32::from_bits(1.0f32.to_bits() - 1), f32::from_bits(1.0f32.to_bits() + 1), 1.5, 2.0]);
+        for (j, &x) in xs.iter().enumerate() {
             custom_checks += 1;
             if e.calc(x).to_bits() != f.calc(x).to_bits() {
-                acc.sink.add("custom-not-used-as-given:direct", j as u64, || (format!("Easing::Custom(f).calc({x}) = {} but f({x}) = {}", e.calc(x), f.calc(x)), json!({"custom": id, "x": fj(x)})));
+                let place = if x == 0.0 || x == 1.0 { "endpoint" } else if !(0.0..=1.0).contains(&x) { "outside-unit-interval" } else { "interior" };
+                acc.sink.add(&format!("custom-not-used-as-given:direct:{place}"), j as u64, || (format!("Easing::Custom(f{id}).calc({x}) = {} but f({x}) = {}", e.calc(x), f.calc(x)), json!({"custom": id, "x": fj(x)})));
             }
-            let mut p = P::default();
-            tl.update(&mut p, x);
-            // lerp(0,1,y) = y exactly
-            if p.a.to_bits() != f.calc(x).to_bits() && !(p.a == 0.0 && f.calc(x) == 0.0) {
-                acc.sink.add("custom-not-used-as-given:timeline", j as u64, || (format!("timeline with Custom easing at {x}: {} but f(x) = {}", p.a, f.calc(x)), json!({"custom": id, "x": fj(x)})));
+            if (0.0..1.0).contains(&x) {
+                let mut p = P::default();
+                tl.update(&mut p, x);
+                // lerp(0,1,y) = 0*(1-y) + 1*y = y exactly
+                let want = 0.0f32 * (1.0 - f.calc(x)) + 1.0 * f.calc(x);
+                if p.a.to_bits() != want.to_bits() && !(p.a == 0.0 && want == 0.0) {
+                    let place = if x == 0.0 { "at-position-0" } else { "interior" };
+                    acc.sink.add(&format!("custom-not-used-as-given:timeline:{place}"), j as u64, || (format!("timeline with Custom easing f{id} at {x}: {} but f(x) = {}", p.a, f.calc(x)), json!({"custom": id, "x": fj(x)})));
+                }
             }
         }
     }
